@@ -226,6 +226,7 @@ def check(ctx):
     ctx.attempt(_inc, 'RX-LANG', 'pp_twprge_ocr_scrub', F.TWPRGE_OCR, g('pp_twprge_ocr_scrub'), 'OCR look-alike digits')
     ctx.attempt(ocr_direction_is_mandatory)
     ctx.attempt(twprge_negatives)
+    ctx.attempt(common.alternative_groups_read_together, [f for f in ctx.repo.funcs.values() if '.parser.' in f.module.name + '.'])
     ctx.attempt(_inc, 'RX-LANG', 'pp_twprge_pm', F.TWPRGE_CANON + F.PM_TAIL, g('pp_twprge_pm'), 'Twp/Rge + principal meridian')
     _inc(ctx, 'RX-LANG', 'pp_twprge_comma_remove', F.TWPRGE_FULL + r"[,;:]?[ ]?",
          g('pp_twprge_comma_remove'), 'Twp/Rge + trailing comma')
